@@ -497,6 +497,12 @@ def run_cases(chk, cases, model_ok, tier, workers):
             plan = [("clash-check:c++14:traits", {"src_text": src, "name": "c07_%d_h" % i, "std": "c++14",
                                                    "sanitize": False, "opt": "-O0", "extra": ["-I" + c.outdir + "/t"],
                                                    "syntax_only": True})]
+            if "structure-named-Storage-or-ValueType" in pkeys:
+                # `ValueType::f()` where `ValueType` names `int32_t` is ill-formed ([basic.lookup.qual]) and clang++
+                # says so; g++ skips the non-class type and finds the namespace.  Ill-formed = some compiler rejects.
+                plan.append(("clash-check:clang:c++14:traits", {"src_text": src, "name": "c07_%d_hc" % i, "std": "c++14",
+                                                                "compiler": "clang++", "sanitize": False, "opt": "-O0",
+                                                                "extra": ["-I" + c.outdir + "/t"], "syntax_only": True}))
         else:
             plan = compile_plan(c, i, tier, c.pinned, c.all_std)
         for tag, j in plan:
